@@ -14,10 +14,12 @@ for pair in ${DET_PAIRS:-"h_store:C07 h_store:C08 h_store:C09 h_index:C10 h_inde
   [ -d "$VERIF_DIR/sim/$H" ] || continue
   cargo build --release --offline -p "$H" >/dev/null 2>&1 || { echo "build failed: $H"; fail=1; continue; }
   BIN="$VERIF_DIR/target/release/$H"
+  NN="$N"
+  case "$ID" in C09) NN=$(( N / 10 + 4 ));; esac
   for seed in 1 7; do
-    "$BIN" --property "$ID" --seed "$seed" --runs "$N" --workers 16 --evidence "$tmp/e1.json" --hashes-out "$tmp/a.txt" >/dev/null 2>&1
+    "$BIN" --property "$ID" --seed "$seed" --runs "$NN" --budget 3600 --workers 16 --evidence "$tmp/e1.json" --hashes-out "$tmp/a.txt" >/dev/null 2>&1
     rc1=$?
-    "$BIN" --property "$ID" --seed "$seed" --runs "$N" --workers 3 --evidence "$tmp/e2.json" --hashes-out "$tmp/b.txt" >/dev/null 2>&1
+    "$BIN" --property "$ID" --seed "$seed" --runs "$NN" --budget 3600 --workers 3 --evidence "$tmp/e2.json" --hashes-out "$tmp/b.txt" >/dev/null 2>&1
     rc2=$?
     if [ "$rc1" -ge 2 ] && [ ! -s "$tmp/a.txt" ]; then echo "SKIP $H $ID (not served)"; break; fi
     if ! cmp -s "$tmp/a.txt" "$tmp/b.txt"; then
